@@ -1,7 +1,7 @@
 #!/bin/sh
 # tools/trymut.sh <worktree> <patch> <ID> [ID...] : apply patch in scratch worktree, run quick checks against it, revert
 wt=$1; patch=$2; shift 2
-git -C "$wt" checkout -q -- . && git -C "$wt" apply "$patch" || { echo "PATCH DOES NOT APPLY"; exit 3; }
+git -C "$wt" checkout -q -- . && git -C "$wt" checkout -q --detach "$(git -C /repo rev-parse HEAD)" && git -C "$wt" apply "$patch" || { echo "PATCH DOES NOT APPLY"; exit 3; }
 for id in "$@"; do
   VERIF_REPO="$wt" VERIF_OUT=/var/tmp/numpoly-verif-mut /verif/check "$id" 2>&1 | grep -v "^  \|^WARNING" | tail -${TAILN:-6}
   echo "== $id exit=$?"
